@@ -132,6 +132,7 @@ type World struct {
 	Fork     *Fork
 	Gen      *Gen
 	PropOverride string
+	armedC15 bool
 	wallAdvanced int64
 }
 
@@ -482,6 +483,8 @@ func (w *World) prepareTx(ts *TxSpec, idx int) *TxCtx {
 	tx.Fee = parseFee(ts.Fee)
 	tx.Payer = signer.Addr
 	if dec, err := w.Ref.App.TxConfig().TxDecoder()(bz); err == nil {
+		// judge what the chain sees: the messages as decoded from the wire
+		tx.Msgs = dec.GetMsgs()
 		if ft, ok := dec.(sdk.FeeTx); ok {
 			func() {
 				defer func() { _ = recover() }()
